@@ -73,12 +73,16 @@ fn event_of(s: &str) -> AnnounceEvent {
     }
 }
 
+/// Name of a parsed event.  (The wildcard arm keeps the executor compiling if the
+/// codec grows a fifth event; such a value is recorded as "other".)
+#[allow(unreachable_patterns)]
 fn event_name(e: AnnounceEvent) -> &'static str {
     match e {
         AnnounceEvent::Started => "started",
         AnnounceEvent::Stopped => "stopped",
         AnnounceEvent::Completed => "completed",
         AnnounceEvent::None => "none",
+        _ => "other",
     }
 }
 
